@@ -184,9 +184,20 @@ theorem C02_code_close (size : Nat) (df : Bool) :
         if 0 < size then "flushImmutable memtable" else "wal.Delete"] :=
   DBTie.close_table size df
 
+/-- the code of `Open` (translated from /repo on every run): the recovered oracle starts above every version found on disk —
+    in the leftover wals and in the tables alike — both watermarks stand exactly one below the next timestamp (so the first
+    Begin reads everything recovered and waits for nothing), and the flusher starts only after both recoveries -/
+theorem C02_code_open (walMax dbMax : Nat) :
+    ∃ ev, GenDB.openDB false false walMax dbMax [] = some (max walMax dbMax + 1, ev) ∧
+      walMax < max walMax dbMax + 1 ∧ dbMax < max walMax dbMax + 1 ∧
+      ("readMark.Done", max walMax dbMax) ∈ ev ∧ ("commitMark.Done", max walMax dbMax) ∈ ev ∧
+      ev.getLast? = some ("go db.run", 0) := by
+  refine ⟨_, DBTie.open_table false false walMax dbMax, by omega, by omega, by simp, by simp, by simp⟩
+
 #print axioms C02_reopen
 #print axioms C02_reopen_reads
 #print axioms C02_still_writable
 #print axioms C02_code_fresh_table_name
 #print axioms C02_code_close
+#print axioms C02_code_open
 end Props
